@@ -43,7 +43,9 @@ static MAXES: simd::u32x16 = simd::u32x16::from_array([u32::MAX; 16]);
 static MAX_P_TO_BITS: u32 = (1 << 28) - 1;
 static MAX_P_TO_BITS_VEC: simd::u32x16 = simd::u32x16::from_array([MAX_P_TO_BITS; 16]);
 
-const PRC_BIT_TABLE_FROM_ERRORS_UNROLL_N: usize = 16; // must be up to 16.
+// Every addend is clamped to `MAX_P_TO_BITS`, so an accumulator (itself clamped after each
+// chunk) plus up to 8 addends stays below `9 * 2^28 < 2^32` and never wraps.
+const PRC_BIT_TABLE_FROM_ERRORS_UNROLL_N: usize = 8; // must be up to 8.
 
 impl PrcBitTable {
     #[cfg(test)]
@@ -58,12 +60,9 @@ impl PrcBitTable {
             simd::u32x16::splat(offset as u32) + simd::u32x16::splat(errors.len() as u32) * INDEX1;
         let mut p_to_bits = ZEROS;
 
-        // MAX_P_TO_BITS is designed not to overflow after 16 times of addition.
-        //
-        // TODO: there's still a risk of overflow when there's a consecutive 16
-        // elements in `error` where all are larger than `1 << 28`. Since it's
-        // very low probability and clamping inputs may degrade the performance,
-        // this issue is ignored currently.
+        // Each lane is kept "exact or saturated at `MAX_P_TO_BITS`": addends are
+        // clamped per lane before accumulation so that large errors (>= 2^28,
+        // possible with 24-bit inputs) cannot wrap the u32 accumulators.
         //
         // In most of SIMD-capable CPUs, saturating ops can be done with a
         // single instruction. However, strangely the use of `saturating_add`
@@ -72,13 +71,13 @@ impl PrcBitTable {
         for chunk in errors.chunks(PRC_BIT_TABLE_FROM_ERRORS_UNROLL_N) {
             if chunk.len() == PRC_BIT_TABLE_FROM_ERRORS_UNROLL_N {
                 repeat!(n to PRC_BIT_TABLE_FROM_ERRORS_UNROLL_N => {
-                    p_to_bits += simd::Simd::splat(chunk[n]) >> INDEX;
+                    p_to_bits += (simd::Simd::splat(chunk[n]) >> INDEX).simd_min(MAX_P_TO_BITS_VEC);
                 });
             } else {
                 repeat!(
                     n to PRC_BIT_TABLE_FROM_ERRORS_UNROLL_N;
                     while n < chunk.len() => {
-                        p_to_bits += simd::Simd::splat(chunk[n]) >> INDEX;
+                        p_to_bits += (simd::Simd::splat(chunk[n]) >> INDEX).simd_min(MAX_P_TO_BITS_VEC);
                     }
                 );
             }
@@ -111,8 +110,10 @@ impl PrcBitTable {
     #[inline]
     pub fn merge(&self, other: &Self, offset: usize) -> Self {
         let offset = simd::u32x16::splat(offset as u32);
+        // saturate: both operands are <= MAX_P_TO_BITS, so the sum cannot wrap, and
+        // `minimizer` requires every lane to fit in 28 bits.
         Self {
-            p_to_bits: self.p_to_bits + other.p_to_bits - offset,
+            p_to_bits: (self.p_to_bits + other.p_to_bits - offset).simd_min(MAX_P_TO_BITS_VEC),
         }
     }
 }
